@@ -17,7 +17,8 @@ ALSO = {
     'C10': ('C01', 'C02', 'C03', 'C04', 'C05', 'C09'),   # membership changes preserve C01-C04 (and the cluster still converges)
     'C12': ('C01', 'C02', 'C05'),            # no stall, no split
     'C17': ('C01',),
-    'C18': ('C02', 'C04', 'C05', 'C10'),     # (C10: the member set a read-only node reports, in the runs with dynamic membership)
+    'C03': ('C10',),                         # (only its runs with dynamic membership have a C10 monitor)
+    'C18': ('C02', 'C04', 'C05', 'C10', 'C20'),     # (C10: the member set a read-only node reports, in the runs with dynamic membership)
 }
 
 CASES = {
@@ -107,14 +108,38 @@ def gen_cfg(prop, tier, seed, i):
         w['submit'] = min(w['submit'], 2)
         cfg['raft_min'], cfg['raft_max'] = pick(r, [(0.4, 1.4), (0.31, 0.5), (0.4, 0.45)])
         cfg['n'] = pick(r, [2, 3, 4, 5])
+        r2 = random.Random(h32('c03dyn', seed, i))
+        if r2.random() < 0.1:
+            # leader completeness while the member set changes (requests right after elections included)
+            cfg['sim'] = 'member'
+            cfg['n'] = pick(r2, [3, 4, 4, 5])
+            cfg['journal'] = 'memory'
+            cfg['n_ro'] = 0
+            w['member'] = pick(r2, [1.0, 3.0])
+            w['operator'] = pick(r2, [0.5, 1.0])
+            cfg['readd_anytime'] = False
+            cfg['queue'] = 100000
+            cfg.pop('consumers', None)
     if prop == 'C02':
         cfg['queue'] = pick(r, [0, 1, 3, 100000], [2, 2, 2, 4])
+    if prop in ('C01', 'C02', 'C04') and cfg.get('sim') is None:
+        r2 = random.Random(h32('c02jr', prop, seed, i))
+        if r2.random() < 0.1:
+            # journaled nodes that are killed (between steps) and restarted: what a callback reported has to stay true
+            cfg['journal'] = 'file'
+            cfg['compact_min'] = 10 ** 9
+            w['compact'] = 0
+            w['kill'] = pick(r2, [0.3, 0.8])
+            w['restart'] = pick(r2, [1.0, 2.5])
+            cfg['votekill'] = pick(r2, [0.0, 0.5])
+            cfg['n_ro'] = 0
+            cfg['ext'] = ['recovery']
         w['partition'] = max(w['partition'], 0.4)
         w['submit'] = max(w['submit'], 6)
     if prop == 'C04':
         cfg['bias'] = pick(r, ['none', 'ackstarve', 'slowfollower'], [1, 3, 2])
         r2 = random.Random(h32('c04dyn', seed, i))
-        if r2.random() < 0.1:
+        if r2.random() < 0.1 and 'kill' not in w:      # (not on top of the journaled kill/restart cases: those need the file journal)
             # "a majority of the voting members" while the member set changes (several requests in quick succession included)
             cfg['sim'] = 'member'
             cfg['n'] = pick(r2, [2, 3, 3, 4])
